@@ -19,7 +19,7 @@ RULE = (
 )
 ASSUMPTIONS = ["the function is parsed from its unparsed text", "emit.function supports ReST docstrings only (documented limit)"]
 CORE_ALLOWED = ("optional_zero", "str_with_squote", "kwargs_param", "multiline_summary", "float_default", "negative_int", "zero_int", "bool_false", "none_default",
-                "prose_trailing_stop", "required_bool", "no_params", "str_with_space", "default_words", "prose_punct", "optional_prose", "union_with_str", "str_with_dot")
+                "prose_trailing_stop", "required_bool", "no_params", "str_with_space", "default_words", "prose_punct", "optional_prose", "union_with_str", "str_with_dot", "kwargs_sole_default")
 FRONTIER_KNOBS = irprops.frontier_knobs((
     "untyped_param", "undocumented_param", "default_without_prose", "bare_param", "empty_str",
     "str_with_quote", "code_default", "code_default_dot", "int_under_nonscalar_type",
